@@ -388,6 +388,7 @@ type xrunner struct {
 	noNames   bool                                  // do not observe constructor/function names (minify-identifiers without keep-names)
 	classify  func(exp, got string) string          // maps a mismatch to a known-finding key ("" = ordinary violation)
 	classify2 func(exp, got, input string) []string // same, several keys, sees the input (nil/empty = ordinary violation)
+	transform func(code string, o api.TransformOptions) (string, bool) // nil: api.Transform; else e.g. a bundle of code + imported modules
 }
 
 // runBatch evaluates a batch of cases: reference (input) vs every configuration's output in V8.
@@ -424,7 +425,13 @@ func (x *xrunner) runBatch(w int, cases []xcase, seg string) {
 			if cs.mod != nil {
 				cs.mod(&o)
 			}
-			out, ok, _ := transformJS(cs.code, o)
+			var out string
+			var ok bool
+			if x.transform != nil {
+				out, ok = x.transform(cs.code, o)
+			} else {
+				out, ok, _ = transformJS(cs.code, o)
+			}
 			if !ok {
 				c.Sub("rejected:"+cfg.name, 1)
 				if cfg.name == "default" && os.Getenv("VERIF_DEBUG") != "" {
